@@ -403,6 +403,33 @@ class BroadcastUnary(Sub):
             if op == "scale" and glt in NO_SCALE and isinstance(got, torch.Tensor):
                 rec.label("scale_ones")
                 rec.check(tuple(got.shape) == tuple(sh) + (1,) and bool((got == 1).all()), "scale_ones", "scale() of %s %s: shape %s, not all ones of shape lshape+(1,)" % (lt, sh, tuple(got.shape)))
+        # cumulative products along EVERY batch dimension, named by its non-negative index and by its negative index (torch convention,
+        # counted on the full tensor: -2 is the last batch dimension): each 1-D line of the batch along that dimension must equal the
+        # same call on that line alone (dim 0) - "batched equals item by item" for the scanned operations (seed C06h: a negative
+        # dim normalised with the wrong modulus scans another axis; invisible on rank-1 batches and for non-negative dims)
+        if isg and len(sh) >= 2 and 0 not in sh:
+            r = len(sh)
+            cum = (("pp.cumprod", lambda x, d: pp.cumprod(x, d)), ("x.cumprod", lambda x, d: x.cumprod(d)),
+                   ("pp.cummul(left=False)", lambda x, d: pp.cummul(x, d, left=False)))[(h >> 12) % 3]
+            for d in range(r):
+                for dim in (d, d - (r + 1)):
+                    with rec.sut("%s(dim=%d)" % (cum[0], dim)):
+                        got = cum[1](X, dim)
+                        lines = {}
+                        for idx in itertools.product(*[range(n_) if a_ != d else (None,) for a_, n_ in enumerate(sh)]):
+                            sel = tuple(slice(None) if i_ is None else i_ for i_ in idx)
+                            lines[sel] = cum[1](pp.LieTensor(X.tensor()[sel].contiguous().clone(), ltype=tu.LT[lt]), 0)
+                    rec.label("cumulative:%s:dim%s" % (cum[0], "neg" if dim < 0 else "pos"))
+                    if not rec.check(isinstance(got, pp.LieTensor) and got.ltype == tu.LT[lt] and tuple(got.shape) == tuple(X.shape),
+                                     "cumulative:type", "%s(dim=%d) on lshape %s: %s %s" % (cum[0], dim, sh, getattr(got, "ltype", None), tuple(got.shape))):
+                        continue
+                    for sel, ln in lines.items():
+                        g_, w_ = tu.npy(got.tensor()[sel]), tu.npy(ln.tensor())
+                        tol_ = 64 * sh[d] * tu.EPS[dtype] * max(1.0, float(np.abs(w_).max()))
+                        if not rec.check(bool(np.all(np.isfinite(g_))) and float(np.abs(g_ - w_).max()) <= tol_, "cumulative:line:%s" % lt,
+                                         lambda: "%s(dim=%d) on lshape %s (%s): the line %s differs from the same call on that line alone by %.3g"
+                                         % (cum[0], dim, sh, lt, sel, float(np.abs(g_ - w_).max()))):
+                            break
         # every operation once more on the SAME object after its values were changed in place (an optimiser step, add_, copy_): must
         # equal the operation on a fresh tensor with the new values.  A result / matrix cached on the object and never invalidated
         # is invisible to any single call (seeds C01d, C05e).
